@@ -100,7 +100,7 @@ func classifyKAP(c kapCase, e expect, r *h.Rec) {
 	}
 	r.Label(c.UA.class())
 	r.Label(c.UB.class())
-	if c.UA.N > 0 || c.UB.N > 0 {
+	if c.UA.N > 0 || c.UB.N > 0 || c.UA.Empty != 0 || c.UB.Empty != 0 {
 		nt = true
 	}
 	switch {
@@ -539,14 +539,25 @@ func TestC08_UIDs(t *testing.T) {
 			DB: b32(uniformScalar(h.Seed + 23)), RB: b32(uniformScalar(h.Seed + 24)),
 			KLen: 48, ConfA: true, ConfB: true,
 		}
-		lens := []int{0, -1, 1, 16, 64, maxUID}
+		specs := []uidSpec{{N: 0}, {N: 0, Empty: 1}, {N: 0, Empty: 2}, {N: -1}, {N: 1}, {N: 16}, {N: 64}, {N: maxUID}}
 		i := 0
-		for _, la := range lens {
-			for _, lb := range lens {
+		for _, ua := range specs {
+			for _, ub := range specs {
 				c := base
-				c.UA, c.UB = uidSpec{N: la, Seed: h.Seed}, uidSpec{N: lb, Seed: h.Seed + 7}
-				c.Conv, c.LatePeer = i%2 == 0, i%3 == 0
+				c.UA, c.UB = ua, ub
+				c.UA.Seed, c.UB.Seed = h.Seed, h.Seed+7
+				// every combination of key construction / late peer data over the pairs
+				c.Conv, c.LatePeer, c.GenKey = i%2 == 0, i%3 == 0, i%5 == 0
 				i++
+				emit(c)
+			}
+		}
+		// each flavour of "none given" against itself with the peer data supplied late and early
+		for _, e := range []int{0, 1, 2} {
+			for _, late := range []bool{false, true} {
+				c := base
+				c.UA, c.UB = uidSpec{Empty: e}, uidSpec{Empty: e}
+				c.LatePeer = late
 				emit(c)
 			}
 		}
